@@ -238,19 +238,39 @@ thread_local! { static SCRIPT_DEPTH: std::cell::Cell<usize> = const { std::cell:
 struct DepthGuard;
 impl Drop for DepthGuard { fn drop(&mut self) { SCRIPT_DEPTH.with(|d| d.set(d.get().saturating_sub(1))); } }
 
+/// What a loader saw of a cache entry through a handle it was given (`load`, `get_cached`, `get_or_insert` from inside
+/// `Compound::load`): key, how it got the handle, address of the handle, canonical value, ledger identity of the value.
+/// Filled only while `LOG_SEEN` is set (engines `cache` / `own`: C01 "the very same handle" and C13 "never dropped
+/// while a handle can still reach it" also hold of the handles given to loaders — re-entrant fills of a slot).
+#[derive(Debug, Clone)]
+pub struct Seen { pub ty: String, pub id: String, pub how: &'static str, pub addr: usize, pub val: String, pub uid: Option<u64> }
+pub static LOG_SEEN: std::sync::atomic::AtomicBool = std::sync::atomic::AtomicBool::new(false);
+pub static SEEN_LOG: Mutex<Vec<Seen>> = Mutex::new(Vec::new());
+pub fn seen_log() -> std::sync::MutexGuard<'static, Vec<Seen>> { SEEN_LOG.lock().unwrap_or_else(|e| e.into_inner()) }
+pub fn note_seen<T: Canon>(ty: &str, id: &str, how: &'static str, h: &assets_manager::Handle<T>) {
+    if !LOG_SEEN.load(std::sync::atomic::Ordering::Relaxed) { return; }
+    let g = h.read();
+    let s = Seen { ty: ty.to_string(), id: id.to_string(), how, addr: h as *const _ as usize, val: g.canon(), uid: g.uid() };
+    drop(g);
+    seen_log().push(s);
+}
+
 pub trait Canon: Sized + Send + Sync + 'static {
     fn canon(&self) -> String;
     fn as_int(&self) -> i64;
     fn from_int(_i: i64) -> Option<Self> { None }
+    /// identity of the value in the ownership ledger (tracked types only)
+    fn uid(&self) -> Option<u64> { None }
 }
-impl<const K: usize> Canon for S<K> { fn canon(&self) -> String { format!("v:{}", self.0) } fn as_int(&self) -> i64 { self.0 } fn from_int(i: i64) -> Option<Self> { Some(S(i, Uid::new())) } }
-impl Canon for N0 { fn canon(&self) -> String { format!("v:{}", self.0) } fn as_int(&self) -> i64 { self.0 } fn from_int(i: i64) -> Option<Self> { Some(N0(i, Uid::new())) } }
-impl<T: Canon> Canon for std::sync::Arc<T> { fn canon(&self) -> String { (**self).canon() } fn as_int(&self) -> i64 { (**self).as_int() } fn from_int(i: i64) -> Option<Self> { T::from_int(i).map(std::sync::Arc::new) } }
+impl<const K: usize> Canon for S<K> { fn canon(&self) -> String { format!("v:{}", self.0) } fn as_int(&self) -> i64 { self.0 } fn from_int(i: i64) -> Option<Self> { Some(S(i, Uid::new())) } fn uid(&self) -> Option<u64> { Some((self.1).0) } }
+impl Canon for N0 { fn canon(&self) -> String { format!("v:{}", self.0) } fn as_int(&self) -> i64 { self.0 } fn from_int(i: i64) -> Option<Self> { Some(N0(i, Uid::new())) } fn uid(&self) -> Option<u64> { Some((self.1).0) } }
+impl<T: Canon> Canon for std::sync::Arc<T> { fn canon(&self) -> String { (**self).canon() } fn as_int(&self) -> i64 { (**self).as_int() } fn from_int(i: i64) -> Option<Self> { T::from_int(i).map(std::sync::Arc::new) } fn uid(&self) -> Option<u64> { (**self).uid() } }
 impl Canon for i64 { fn canon(&self) -> String { format!("v:{self}") } fn as_int(&self) -> i64 { *self } fn from_int(i: i64) -> Option<Self> { Some(i) } }
 impl<const E: usize, const D: bool> Canon for M<E, D> {
     fn canon(&self) -> String { format!("m:{}:{}:{}", self.val, hexs(&self.ext), hex(&self.bytes)) }
     fn as_int(&self) -> i64 { self.val }
     fn from_int(i: i64) -> Option<Self> { Some(M { val: i, ext: String::new(), bytes: vec![], uid: Uid::new() }) }
+    fn uid(&self) -> Option<u64> { Some(self.uid.0) }
 }
 fn canon_ids<'a>(it: impl Iterator<Item = &'a SharedString>) -> String {
     format!("ids:{}", it.map(|s| hexs(s)).collect::<Vec<_>>().join(","))
@@ -319,7 +339,10 @@ macro_rules! with_storable {
 fn script_err(e: assets_manager::Error) -> BoxedError { Box::new(e) }
 
 #[derive(Debug, Clone)]
-pub enum Tok { Lit(i64), Load(String, String), LoadIgn(String, String), Cached(String, String), Owned(String, String), NoRec(String, String), Thread(String, String), Catch(String, String), Raw(String, String), Panic, Error }
+pub enum Tok { Lit(i64), Load(String, String), LoadIgn(String, String), Cached(String, String), Owned(String, String), NoRec(String, String), Thread(String, String), Catch(String, String), Raw(String, String), Goi(String, String, i64), Panic, Error }
+
+/// the type names `with_insertable!` accepts (types with `Canon::from_int`)
+pub const INSERTABLE_NAMES: &[&str] = &["S0", "S1", "S2", "N0", "I", "AN", "AS", "M00", "M01", "M10", "M11", "M20", "M21", "M30", "M31", "M40", "M41", "M50", "M51"];
 
 pub const COMPOUND_NAMES: &[&str] = &["S0", "S1", "S2", "N0", "AN", "AS", "M00", "M01", "M10", "M11", "M20", "M21", "M30", "M31", "M40", "M41", "M50", "M51",
     "D0", "D1", "D2", "D3", "D4", "D5", "R0", "R1", "R2", "R3", "R4", "R5"];
@@ -353,6 +376,13 @@ pub fn parse_script(text: &str) -> Option<Vec<Tok>> {
                 if it.next().is_some() { return None; }
                 Tok::Raw(fid.to_string(), ext.to_string())
             }
+            // `@T:id:n`: exactly three fields, `T` constructible from an integer, `n` = `-?[0-9]{1,15}`
+            '@' => {
+                let mut it = rest.split(':');
+                let (t, i, n) = (it.next()?, it.next()?, it.next()?);
+                if it.next().is_some() || !INSERTABLE_NAMES.contains(&t) { return None; }
+                Tok::Goi(t.to_string(), i.to_string(), parse_int(n)?)
+            }
             _ => Tok::Lit(parse_int(w)?),
         });
     }
@@ -360,7 +390,7 @@ pub fn parse_script(text: &str) -> Option<Vec<Tok>> {
 }
 
 fn load_int(c: AnyCache, t: &str, i: &str) -> Result<i64, assets_manager::Error> {
-    with_compound!(t, T => c.load::<T>(i).map(|h| h.read().as_int()), else unreachable!("type name validated by parse_script"))
+    with_compound!(t, T => c.load::<T>(i).map(|h| { note_seen(t, i, "load", h); h.read().as_int() }), else unreachable!("type name validated by parse_script"))
 }
 
 pub fn run_script(ty: &'static str, cache: AnyCache, id: &SharedString) -> Result<i64, BoxedError> {
@@ -383,7 +413,7 @@ pub fn run_script(ty: &'static str, cache: AnyCache, id: &SharedString) -> Resul
             Tok::Load(t, i) => acc += load_int(cache, &t, &i).map_err(script_err)?,
             Tok::LoadIgn(t, i) => { if let Ok(v) = load_int(cache, &t, &i) { acc += v; } }
             Tok::Cached(t, i) => {
-                let v: Option<i64> = with_compound!(t.as_str(), T => cache.get_cached::<T>(&i).map(|h| h.read().as_int()), else unreachable!());
+                let v: Option<i64> = with_compound!(t.as_str(), T => cache.get_cached::<T>(&i).map(|h| { note_seen(&t, &i, "cached", h); h.read().as_int() }), else unreachable!());
                 acc += v.unwrap_or(1000);
             }
             Tok::Owned(t, i) => {
@@ -403,6 +433,15 @@ pub fn run_script(ty: &'static str, cache: AnyCache, id: &SharedString) -> Resul
                 // a loader panic inside `no_record`, contained by the compound itself
                 let r = std::panic::catch_unwind(std::panic::AssertUnwindSafe(|| cache.no_record(|| load_int(cache, &t, &i))));
                 match r { Ok(v) => acc += v.map_err(script_err)?, Err(_) => acc += 7777 }
+            }
+            Tok::Goi(t, i, n) => {
+                // `get_or_insert` from inside a loader — possibly into the very slot that is being loaded
+                let v: i64 = with_insertable!(t.as_str(), T => {
+                    let h = cache.get_or_insert::<T>(&i, <T as Canon>::from_int(n).expect("type name validated by parse_script"));
+                    note_seen(&t, &i, "goi", h);
+                    h.read().as_int()
+                }, else unreachable!("type name validated by parse_script"));
+                acc += v;
             }
             Tok::Raw(fid, ext) => { let source = cache.raw_source(); acc += source.read(&fid, &ext)?.as_ref().len() as i64; }
         }
